@@ -27,16 +27,16 @@ CLAIMED["C17"] = {
 }
 
 CLAIMED["C01"] = {
-  "text": "Machine-checked proof (Lean 4, invariant by induction over the step relation) on a step-per-shared-memory-operation model of HalfLock for ANY number of threads, ANY finite scripts of read sections and write/store calls and EVERY interleaving: a pinned snapshot is never released, every snapshot is released at most once, only by the writer that swapped it out, only after its barrier saw both reader slots idle, never by a reader (delivery); the published snapshot is never a released one. Tied to /repo by (a) the SeqCst side condition and the exact list of atomic call sites regenerated from half_lock.rs, and (b) lock-step differential execution: the real HalfLock runs under a deterministic scheduler behind cfg(sighook_verif) and every shim-visible operation (site, ordering, location, value) is compared with the model replaying the same schedule; the C01 trace monitor also runs on the implementation trace.",
-  "design_ref": "DESIGN.md section 6 C01",
-  "note": "Trusted: Lean kernel + audited axioms; SC memory model for the half-lock (all its atomics are SeqCst, checked; DRF-SC trusted); shim reports every shared-memory operation of half_lock.rs; deliveries are simulated calls of the real dispatcher; counters modelled as Nat (MAX_GUARDS abort unreachable below isize::MAX threads). The registry-level statement (actions inside snapshots, Arc release) is covered through the registry step-level correspondence, see DESIGN.md.",
+  "text": "Machine-checked proof (Lean 4, invariant by induction over the step relation) on a step-per-shared-memory-operation model of HalfLock for ANY number of threads, ANY finite scripts of read sections and write/store calls and EVERY interleaving: a pinned snapshot is never released, every snapshot is released at most once, only by the writer that swapped it out, only after its barrier saw both reader slots idle, never by a reader (delivery); the published snapshot is never a released one. Tied to /repo by (a) the SeqCst side condition and the exact list of atomic call sites regenerated from half_lock.rs, and (b) lock-step differential execution: the real HalfLock runs under a deterministic scheduler behind cfg(sighook_verif) and every shim-visible operation (site, ordering, location, value) is compared with the model replaying the same schedule; the C01 trace monitor also runs on the implementation trace. At registry level (model L6, every reachable state): an action dropped when a snapshot is released is in no delivery's remaining list and in no live snapshot, deliveries never release anything, and a delivery executes a suffix of the list recorded for the live snapshot it pinned; checked against the real registry (scheduled register/unregister/deliveries) and against dropping the owning iterator instance.",
+  "design_ref": "DESIGN.md sections 6 C01, 12",
+  "note": "Trusted: Lean kernel + audited axioms; SC memory model for the half-lock (all its atomics are SeqCst, checked; DRF-SC trusted); shim reports every shared-memory operation of half_lock.rs; deliveries are simulated calls of the real dispatcher; counters modelled as Nat (MAX_GUARDS abort unreachable below isize::MAX threads). Registry level (actions, not just snapshots): theorems C01_registry_release_unreferenced / _delivery_never_releases / _runs_pinned hold for every reachable state of the concurrent registry model L6 (invariants Inv6, Inv7a), tied by the registry and owner-drop scenario stages.",
   "technique": "Lean 4 inductive invariant over an N-thread step machine + lock-step model/implementation correspondence under a deterministic scheduler",
 }
 
 CLAIMED["C18"] = {
   "text": "Machine-checked proofs on the N-thread half-lock step machine, for every reachable state of every interleaving: no deadlock (some thread is always enabled while any is unfinished), mutual exclusion of writers, readers (deliveries) are wait-free (every reader step is enabled regardless of other threads), quiescent completion (a writer anywhere inside write()/store() with both reader counters at zero returns alone within 8 own steps), and poisoning of the writer mutex never disables a step. Tied to /repo by lock-step differential execution of the real HalfLock under the deterministic scheduler (including destructors that panic under the writer mutex) against the model, with monitors for completion, the quiescent bound and non-wedging on the implementation trace.",
   "design_ref": "DESIGN.md section 6 C18",
-  "note": "Trusted: as C01 (SC, shim completeness, scheduler). Termination is proved in the bounded-step / enabledness form above for finite workloads; with an infinite stream of overlapping deliveries a writer can spin by design and that liveness is not claimed. The iterator-level part (instance mutex of Signals: add_signal/Drop after a panic) is decided under C12.",
+  "note": "Trusted: as C01 (SC, shim completeness, scheduler). Termination is proved in the bounded-step / enabledness form above for finite workloads; with an infinite stream of overlapping deliveries a writer can spin by design and that liveness is not claimed. The iterator-level part (instance mutex of Signals: add_signal/Drop after a panic) is decided under C12. Registry level, every reachable L6 state: C18_registry_waits_only_for_data_mutex, C18_registry_no_deadlock, C18_registry_lock_order; tie theorem C18_lock_order_source.",
   "technique": "Lean 4 invariants + bounded-progress lemmas over an N-thread step machine + lock-step correspondence under a deterministic scheduler",
 }
 
@@ -44,19 +44,19 @@ _RC_NOTE = "Trusted: Lean kernel + audited axioms; SC for the half-locks (all Se
 CLAIMED["C02"] = {
   "text": "Lean 4 theorems on the concurrent registry model L6 (two embedded half-lock machines + snapshot contents + kernel table; any number of threads, every interleaving, every state): the dispatcher's plan is a function of the pinned data snapshot only (the slot's actions in map order, nothing of other signals), it is executed one action per step in order each exactly once with the chained handler first, the pinned snapshot is the one current at the delivery's data.load() (C01_read_gets_current), registrations append (execution order = registration order), removals keep the order of the rest, operations never touch other signals' slots and never remove slots. Tied to /repo by lock-step differential execution of the real registry (real register/unregister/unregister_signal + the real dispatcher via verif::deliver, incl. deliveries nested on mutator threads) against L6 on the same schedule, and by the C02 trace monitor (each delivery's run list = the action list of the registry state current at its load; spec advanced at each publication) evaluated on the implementation trace.",
   "design_ref": "DESIGN.md section 6 C02",
-  "note": _RC_NOTE + " The real-time corollary (registered-before / removed-after) is checked by the trace monitor on every explored schedule and follows from the proved step lemmas + writer mutual exclusion (C18); its trace-level Lean statement is listed as future work in DESIGN.md.",
+  "note": _RC_NOTE + " The real-time corollary (registered-before / removed-after) is checked by the trace monitor on every explored schedule and follows from the proved step lemmas + writer mutual exclusion (C18); Proved for every reachable L6 state: C02_publications_linearize (the current contents change only at a data.swap and then by exactly one sequential-specification step of the contents current at that swap), C02_delivery_pins_current, C02_runs_pinned_list, C02_contents_immutable; tie theorem C02_mutator_skeleton on the regenerated call order.",
   "technique": "Lean 4 step lemmas over the N-thread registry machine + lock-step model/implementation correspondence + linearizability monitor on implementation traces",
 }
 CLAIMED["C03"] = {
   "text": "Lean 4 theorems, for every state of the rest of the system (reachable or not, i.e. every point at which every other thread - or the interrupted thread - may be paused): a thread inside a half-lock read section performs only atomic load / fetch_add / fetch_sub, every such step is enabled regardless of all other threads and strictly decreases the number of own steps left (read section = exactly 4 + uses own steps), a release of a snapshot is never performed from a read section, and between pinning and unpinning the dispatcher only calls the chained handler and the actions and releases nothing. Tied to /repo by the registry step correspondence with deliveries forced at every scheduling point of concurrent mutators (incl. nested on the mutator's own thread), a per-step event-kind monitor on the implementation trace (no lock/alloc/free/spin/yield/syscall inside a delivery, step bound 8 + actions + chained handler) and a #[global_allocator] wrapper counting heap operations of library code inside deliveries.",
   "design_ref": "DESIGN.md section 6 C03",
-  "note": _RC_NOTE + " Built-in actions (flag, pipe wake, exfiltrators, conditional shutdown) are covered at the step level where their code is shimmed (channel, exfiltrators: C06-C10) and otherwise by the heap/lock monitors; see DESIGN.md for what is partial.",
+  "note": _RC_NOTE + " Built-in actions (flag, pipe wake, exfiltrators, conditional shutdown) are covered at the step level where their code is shimmed (channel, exfiltrators: C06-C10) and otherwise by the heap/lock monitors; see DESIGN.md for what is partial. Proved for every reachable L6 state: C03_registry_delivery_step (always enabled, handler-safe event, nothing released) and C03_registry_delivery_bounded (exact own-step count: at most 6 to the pin, then chained handler + pinned actions + 2).",
   "technique": "Lean 4 wait-freedom / bounded-step lemmas + event-kind and heap monitors on scheduled executions of the real dispatcher",
 }
 CLAIMED["C04"] = {
   "text": "Lean 4 theorems on L6: calling conventions of Prev::execute (1-arg vs 3-arg, default/ignore not called), a pinned slot's prev has priority, in the first-registration window the handler stored in the pinned race_fallback snapshot is used and only if stored for this very signal, and a prev call only ever happens as the first step of a dispatch plan (once, before every action). Tied to /repo by the registry step correspondence with foreign C-ABI handlers pre-installed (1-arg and SA_SIGINFO, checking signal/info/context pointers), deliveries forced into every step of concurrent first registrations (same and other signals), and the C04 monitor (exactly one call, first, right convention and arguments) on the implementation trace.",
   "design_ref": "DESIGN.md section 6 C04",
-  "note": _RC_NOTE + " Environment hypothesis: nobody outside the library changes the disposition after the library first read it. The global handover invariant (disposition = library implies slot or matching fallback) is checked by the monitor on all explored schedules; its inductive Lean proof is listed in DESIGN.md as in progress.",
+  "note": _RC_NOTE + " Environment hypothesis: nobody outside the library changes the disposition after the library first read it. The handover invariant is proved for every reachable L6 state from any initial disposition table without the library's handler (Inv7b): C04_records_what_it_replaced, C04_recorded_from_first_instant, C04_record_never_changes, C04_delivery_chains_the_record; tie theorems C04_first_registration_order / C04_handler_order on the regenerated call order.",
   "technique": "Lean 4 dispatch lemmas + lock-step correspondence with forced deliveries in the first-registration window + chaining monitor",
 }
 
@@ -64,20 +64,20 @@ _CH_NOTE = "Trusted: Lean kernel + audited axioms (decide +kernel over finite ta
 CLAIMED["C06"] = {
   "text": "Lean 4 proofs by complete enumeration (decide +kernel, lifted by closure lemmas) over all 326 well-formed queue states that the packed u16 queues are exact List FIFOs: dequeue hands out the head and leaves the tail, enqueue appends at the tail and never panics with room, empty is reported iff empty, pack is injective and well-formed states are closed; model-level lemma for every state and every environment choice that a value is discarded only by a step that read an empty `empty` queue. Tied to /repo by the regenerated constants, the exhaustive get/set table (2^16 x 5 x 9 arguments, real functions vs model), lock-step execution of the real Channel under the scheduler (N threads, bursts beyond capacity, sends nested as a signal handler, spurious CAS failures) against the model, FIFO/uniqueness/outstanding-count monitors on the implementation trace, and an unscheduled stress search when the correspondence breaks.",
   "design_ref": "DESIGN.md section 6 C06",
-  "note": _CH_NOTE + " The N-thread ownership / FIFO-refinement invariant over whole executions is checked by the monitors on every explored schedule; its inductive Lean proof is in progress (DESIGN.md).",
-  "technique": "Lean 4 exhaustive kernel-checked tables + step lemmas; lock-step correspondence; exhaustive bit-function table",
+  "note": _CH_NOTE + " The N-thread invariant of the view-based model (Lemmas/ChannelInv.lean: one holder per slot index, every value in both histories well-formed, cells of `full`'s indices occupied) is proved for every reachable state: C06_queues_wellformed, C06_fifo_transitions; the payload-level statement (values, per-producer order, five outstanding) is the monitor's.",
+  "technique": "Lean 4 inductive invariant over the N-thread view-based channel machine + exhaustive kernel-checked tables; lock-step correspondence; exhaustive bit-function table",
 }
 CLAIMED["C07"] = {
   "text": "Lean 4: the ordering side condition (enqueue success releases, dequeue success acquires) is a theorem about the orderings regenerated from channel.rs, so any downgrade breaks a proof obligation; kernel-checked witnesses show the side condition is necessary (with either ordering relaxed the model reaches a data race on the simplest send/recv execution) and that the declared orderings are race-free on executions with forced stale reads and cell reuse. Tied to /repo by the lock-step channel correspondence, a vector-clock happens-before monitor computed from the orderings the code actually passes at run time, an ownership monitor on actual cell modifications (memory watched per step), and destructor-counting payloads (drop exactly once incl. channel drop).",
   "design_ref": "DESIGN.md section 6 C07",
-  "note": _CH_NOTE + " The general race-freedom invariant for N threads under the view semantics is in progress; until then level = proof of the side condition + kernel-checked witnesses + monitors.",
-  "technique": "Lean 4 side-condition theorem over regenerated orderings + kernel-checked race witnesses; vector-clock and ownership monitors on scheduled executions",
+  "note": _CH_NOTE + " C07_race_free / C07_race_free_declared: no step of any reachable state (N threads, any scripts, every interleaving, every stale read and spurious failure the view model allows) is a data race, for any orderings satisfying the side condition, which the declared ones do (regenerated); drop-exactly-once is monitored.",
+  "technique": "Lean 4 race-freedom theorem (inductive invariant under a view-based release/acquire model) with the side condition on the regenerated orderings + kernel-checked necessity witnesses; vector-clock and ownership monitors on scheduled executions",
 }
 CLAIMED["C08"] = {
   "text": "Lean 4: in every state of the model (reachable or not — i.e. wherever every other thread, or the thread a handler interrupted, is paused) and under every environment choice a thread with work left has an enabled step (no operation of send/recv waits on another thread); enqueue finds room on every well-formed non-full queue (complete enumeration). Tied to /repo by the lock-step channel correspondence with sends nested at every step of a send/recv on the same thread, panic detection, per-operation own-step bound 7 + 2 x failed CAS on the implementation trace, and the unscheduled stress search with a real signal handler.",
   "design_ref": "DESIGN.md section 6 C08",
-  "note": _CH_NOTE + " That the expect()s are unreachable from every *reachable* state needs the ownership invariant (in progress); it is monitored on every explored schedule.",
-  "technique": "Lean 4 enabledness lemma for all states + exhaustive kernel-checked table; lock-step correspondence with nested sends; stress search",
+  "note": _CH_NOTE + " C08_never_panics: neither expect() is reachable from any reachable state (enqueue's relaxed loads can only return queue values that lack the owner's index; recv finds its payload), C08_progress_without_panic.",
+  "technique": "Lean 4 no-panic theorem for all reachable states (inductive invariant) + enabledness lemma for all states; lock-step correspondence with nested sends; stress search",
 }
 
 _IT_NOTE = "Trusted: Lean kernel + audited axioms; SC for `closed` and the SignalOnly slots (SeqCst, checked from the regenerated orderings); the self-pipe as a byte counter with capacity (capacity measured each run); readiness callbacks by their contract (blocking = one-byte read enabled iff a byte is present; non-blocking false = armed notification); one consumer per instance (&mut self); deliveries are simulated calls of the real dispatcher running the instance's real action; mio/tokio/async-std reactors are outside the model."
